@@ -35,31 +35,34 @@ mod verif_witness_c05 {
     /// what the statement designates, per handler name: (middlewares, observers), outermost first; plus, per constructor
     /// name, the path of nest positions of the blueprint it was registered in
     #[derive(Default)]
-    struct Model { handlers: BTreeMap<String, (Vec<String>, Vec<String>)>, constructors: BTreeMap<String, Vec<usize>>, n: usize }
+    struct Model { handlers: BTreeMap<u32, (String, Vec<String>, Vec<String>)>, constructors: BTreeMap<String, Vec<usize>>, n: usize }
 
     fn gen_bp(rng: &mut Rng, depth: usize, m: &mut Model, mut chain: Vec<String>, mut obs: Vec<String>, path: Vec<usize>, is_root: bool) -> s::Blueprint {
         let mut components = Vec::new();
         let n = rng.below(if depth == 0 { 9 } else { 6 });
-        let mut fallback: Option<String> = None;
+        let mut fallback: Option<(u32, String)> = None;
         let mut nested_here = 0;
         for _ in 0..n {
             m.n += 1;
             let k = m.n;
             let with_eh = rng.below(3) == 0;
+            // the same function may be registered more than once, in this or in another blueprint: names repeat, registrations (lines) do not
+            let shared = rng.below(4) == 0;
+            let tag = if shared { format!("_shared{}", rng.below(2)) } else { format!("{k}") };
             match rng.below(if depth >= 3 { 8 } else { 10 }) {
-                0 => { let nm = format!("wrap{k}"); chain.push(nm.clone());
+                0 => { let nm = format!("wrap{tag}"); chain.push(nm.clone());
                        components.push(s::Component::WrappingMiddleware(s::WrappingMiddleware { coordinates: coords(&nm), registered_at: loc(k as u32), error_handler: if with_eh { eh(&format!("eh{k}")) } else { None } })); }
-                1 => { let nm = format!("pre{k}"); chain.push(nm.clone());
+                1 => { let nm = format!("pre{tag}"); chain.push(nm.clone());
                        components.push(s::Component::PreProcessingMiddleware(s::PreProcessingMiddleware { coordinates: coords(&nm), registered_at: loc(k as u32), error_handler: if with_eh { eh(&format!("eh{k}")) } else { None } })); }
-                2 => { let nm = format!("post{k}"); chain.push(nm.clone());
+                2 => { let nm = format!("post{tag}"); chain.push(nm.clone());
                        components.push(s::Component::PostProcessingMiddleware(s::PostProcessingMiddleware { coordinates: coords(&nm), registered_at: loc(k as u32), error_handler: if with_eh { eh(&format!("eh{k}")) } else { None } })); }
-                3 => { let nm = format!("obs{k}"); obs.push(nm.clone());
+                3 => { let nm = format!("obs{tag}"); obs.push(nm.clone());
                        components.push(s::Component::ErrorObserver(s::ErrorObserver { coordinates: coords(&nm), registered_at: loc(k as u32) })); }
-                4 | 5 => { let nm = format!("route{k}"); m.handlers.insert(nm.clone(), (chain.clone(), obs.clone()));
+                4 | 5 => { let nm = format!("route{tag}"); m.handlers.insert(k as u32, (nm.clone(), chain.clone(), obs.clone()));
                        components.push(s::Component::Route(s::Route { coordinates: coords(&nm), registered_at: loc(k as u32), error_handler: if with_eh { eh(&format!("eh{k}")) } else { None } })); }
                 6 => { let nm = format!("ctor{k}"); m.constructors.insert(nm.clone(), path.clone());
                        components.push(s::Component::Constructor(s::Constructor { coordinates: coords(&nm), lifecycle: None, cloning_policy: None, error_handler: if with_eh { eh(&format!("eh{k}")) } else { None }, lints: Default::default(), registered_at: loc(k as u32) })); }
-                7 => { let nm = format!("fallback{k}"); fallback = Some(nm.clone());   // the last one registered wins; it sees the chains at the END of its blueprint
+                7 => { let nm = format!("fallback{tag}"); fallback = Some((k as u32, nm.clone()));   // the last one registered wins; it sees the chains at the END of its blueprint
                        components.push(s::Component::FallbackRequestHandler(s::Fallback { coordinates: coords(&nm), registered_at: loc(k as u32), error_handler: None })); }
                 _ => {
                     let mut p = path.clone(); p.push(nested_here); nested_here += 1;
@@ -75,8 +78,8 @@ mod verif_witness_c05 {
             }
         }
         match fallback {
-            Some(nm) => { m.handlers.insert(nm, (chain, obs)); }
-            None if is_root => { m.handlers.insert("DEFAULT_FALLBACK".into(), (chain, obs)); }
+            Some((line, nm)) => { m.handlers.insert(line, (nm, chain, obs)); }
+            None if is_root => { m.handlers.insert(0, ("DEFAULT_FALLBACK".into(), chain, obs)); }
             None => {}
         }
         s::Blueprint { creation_location: loc(0), components }
@@ -118,17 +121,19 @@ mod verif_witness_c05 {
         let mut seen = 0;
         for (h, chain) in &aux.handler_id2middleware_ids {
             let name = name_of(&aux, *h);
+            let line = aux.id2registration[*h].location.line;
             let got_mw: Vec<String> = chain.iter().map(|i| name_of(&aux, *i)).collect();
             let got_obs: Vec<String> = aux.handler_id2error_observer_ids.get(h).unwrap_or_else(|| panic!("VERIF: `{name}` has no observer chain")).iter().map(|i| name_of(&aux, *i)).collect();
-            let Some((mw, obs)) = m.handlers.get(&name) else {
+            let Some((expected_name, mw, obs)) = m.handlers.get(&line) else {
                 // a fallback that was overridden by a later one in the same blueprint is not processed at all
-                panic!("VERIF: handler `{name}` is not in the model (a fallback registered and later replaced must not be recorded)");
+                panic!("VERIF: handler `{name}` registered at line {line} is not in the model (a fallback registered and later replaced must not be recorded)");
             };
+            assert_eq!(&name, expected_name, "VERIF: the handler registered at line {line}");
             assert_eq!(&got_mw, mw, "VERIF: middlewares attached to `{name}` (expected: those registered before it in its own and its enclosing blueprints, in order)\nblueprint: {bp:?}");
             assert_eq!(&got_obs, obs, "VERIF: error observers attached to `{name}`\nblueprint: {bp:?}");
             seen += 1;
         }
-        assert_eq!(seen, m.handlers.len(), "VERIF: every route and the applicable fallbacks are recorded, nothing else; model: {:?}", m.handlers.keys().collect::<Vec<_>>());
+        assert_eq!(seen, m.handlers.len(), "VERIF: every route and the applicable fallbacks are recorded, nothing else; model: {:?}", m.handlers.values().map(|v| &v.0).collect::<Vec<_>>());
         assert_eq!(aux.handler_id2error_observer_ids.len(), aux.handler_id2middleware_ids.len());
         // ---- C04: constructors live in the scope of their own blueprint: depth = nesting depth, same blueprint <=> same scope
         let mut scope_of_path: BTreeMap<Vec<usize>, ScopeId> = BTreeMap::new();
